@@ -438,20 +438,22 @@ def expansion_then_inverse_restores_the_assembly(ctx, n, targets, struct=None):
                        "symbolic factors applied to the already expanded assembly); mixed-target variant; variant where "
                        "the second call lists only the solids of some blocks (listed: the others have no prescribed "
                        "change in that step); variant where the user designates another target component between the "
-                       "two calls (retarget)", stubs=STUBS, qtimeout_ms=30000,
+                       "two calls (retarget); variant where the changer serves another assembly in between (detour)",
+         stubs=STUBS, qtimeout_ms=30000,
          instances={"quick": [dict(n=2, targets=("fuel", "fuel")), dict(n=2, targets=("fuel", "clad")),
                               dict(n=2, targets=("fuel", "fuel"), listed=(1,)),
                               dict(n=2, targets=("fuel", "fuel"), retarget="clad")],
                     "thorough": [dict(n=3, targets=("fuel", "fuel", "fuel")), dict(n=3, targets=("clad", "fuel", "fuel")),
-                                 dict(n=3, targets=("fuel", "fuel", "fuel"), listed=(2,)),
+                                 dict(n=3, targets=("fuel", "fuel", "fuel"), listed=(2,), detour=True),
                                  dict(n=2, targets=("fuel", "clad"), listed=(1,)),
                                  dict(n=2, targets=("duct",) * 2, struct=("aclp", "plenum"), listed=(1,), retarget="clad"),
                                  dict(n=2, targets=("auto",) * 2, struct=("plate", "cfuel")),
                                  dict(n=3, targets=("auto",) * 3, struct=("noclad", "pin", "pin61"))]})
-def second_expansion_keeps_the_invariants(ctx, n, targets, struct=None, listed=None, retarget=None):
+def second_expansion_keeps_the_invariants(ctx, n, targets, struct=None, listed=None, retarget=None, detour=False):
     """listed: indices of the blocks whose solids are listed in the SECOND call (None = all); every component that is not
     listed has no prescribed change in that step.  retarget: component name the user designates as target of every
-    block between the two calls (None = designations unchanged).  One changer instance serves both calls."""
+    block between the two calls (None = designations unchanged).  detour: between the two calls the same changer expands
+    another (concrete) assembly, as a driver looping over the core does.  One changer instance serves all calls."""
     a, hs = build(ctx, n, targets, struct=struct)
     comps = solids(a)
     names = {c: "%d_%s" % (k, vn(c)) for k, b in enumerate(a[:-1]) for c in bsolids(b)}
@@ -465,6 +467,16 @@ def second_expansion_keeps_the_invariants(ctx, n, targets, struct=None, listed=N
     if expand(changer, a, comps, [g1[c] for c in comps]):
         return
     mid = snapshot(a)
+    if detour:
+        other = assemblies.HexAssembly("fuel")
+        other.spatialGrid = grids.AxialGrid.fromNCells(3)
+        other.spatialGrid.armiObject = other
+        for b in (mk_kind("pin"), mk_kind("pin"), mk_dummy()):
+            other.add(b)
+        other.calculateZCoords()
+        oc = solids(other)
+        if expand(changer, other, oc, [1.0 + 0.01 * (i + 1) for i in range(len(oc))]):
+            ctx.check("a 1..6 % growth of a 10 cm pin block fits into the 10 cm dummy block", False)
     if retarget is not None:
         for b in a[:-1]:
             b.p.axialExpTargetComponent = retarget
